@@ -764,6 +764,8 @@ func DelLeafCountKV(db dbm.DB, blockHeight int64, treeCfg *TreeConfig) error {
 	for it.Rewind(); it.Valid(); it.Next() {
 		hash, err := getRootHash(it.Key())
 		if err == nil {
+			// the iterator reuses its key buffer: the node object that Load caches must own its hash
+			hash = append([]byte(nil), hash...)
 			tree := NewTree(db, true, treeCfg)
 			err := tree.Load(hash)
 			if err == nil {
